@@ -118,6 +118,8 @@ let stage_msg (st : Bounded.stage) : string option =
       Some (Printf.sprintf "Invalid ELF %s header entry size: %s" (if sect then "section" else "program") (dec sz))
   | Bounded.StHdrRead (sect, idx, off) ->
       Some (Printf.sprintf "Cannot read ELF %s header #%s at %s" (if sect then "section" else "program") (dec_n idx) (dec_n off))
+  | Bounded.StHdrExtent (sect, num, off) ->
+      Some (Printf.sprintf "Invalid ELF %s header table (%s entries at %s)" (if sect then "section" else "program") (dec_n num) (dec_n off))
   | Bounded.StTooMany (sect, n) ->
       Some (Printf.sprintf "Too many %s headers (%s)" (if sect then "section" else "program") (dec_n n))
   | Bounded.StAlloc -> Some "Cannot allocate"
